@@ -213,7 +213,8 @@ impl Profile {
             drop_state: false,
             audit: false,
             probes: false,
-            inner_vars: false,
+            // (decoder 4) on everywhere; the generator only draws them inside bind arms
+            inner_vars: true,
             kinds_off: 0,
             max_vars: 5,
             freeze_structure: false,
